@@ -149,6 +149,13 @@ fn translate_block(
         // slot, return. We always want to have enough bytes to handle a delay
         // slot.
         if offset >= bytes.len() {
+            // a branch whose delay slot lies beyond the given bytes cannot be
+            // lifted: its successors are already pushed, and the slot is lost
+            if let TranslateBranchDelay::DelaySlot(..)
+            | TranslateBranchDelay::DelaySlotFallThrough(..) = branch_delay
+            {
+                return Err("branch delay slot is outside of the given bytes".into());
+            }
             successors.push((address + offset as u64, None));
             break;
         }
